@@ -207,6 +207,16 @@ func (b *readBuffer) string(n int) string {
 	return string(str)
 }
 
+// checkLen ensures that a variable length field, or an argument count, fits the
+// width of the length field that carries it on the wire. Without this check the
+// length octets written by MarshalBinary would silently wrap (uint8/uint16).
+func checkLen(name string, n, max int) error {
+	if n > max {
+		return fmt.Errorf("%s length [%d] exceeds the maximum [%d] its wire length field can carry", name, n, max)
+	}
+	return nil
+}
+
 // appendUint16 will append an int to a []byte as a uint16 but shifting bits
 func appendUint16(b []byte, i int) []byte {
 	return append(b, byte(i>>8), byte(i))
